@@ -186,6 +186,17 @@ impl Visit for OptChainVisitor<'_> {}
 
 impl VisitMut for OptChainVisitor<'_> {
     /*
+     * Nested functions and classes are scopes of their own: an optional chain inside them
+     *  is transformed when its own block is visited. Extracting it here would evaluate it
+     *  outside of the function it belongs to.
+     */
+    fn visit_mut_function(&mut self, _: &mut Function) {}
+
+    fn visit_mut_arrow_expr(&mut self, _: &mut ArrowExpr) {}
+
+    fn visit_mut_class(&mut self, _: &mut Class) {}
+
+    /*
      * Iterates the OptChain finding a method to replace.
      *  If the expression contains method to rewrite, all the OptCall or OptMembers are converted
      *  normal Member or Call expressions, and the optional part of the expression is extracted
